@@ -407,6 +407,13 @@ def census():
         parsed[rel] = scan(rel, srcfacts.read(rel))
 
     mutables, casts, statics, lstatics = [], {}, [], []
+    class_static_names = set()
+    for rel in files:
+        for chain, kind, st in parsed[rel][1]:
+            if kind == "class" and chain:
+                m = re.match(r"(?:(?:public|private|protected)\s*:\s*)*static\b[^()]*?(\w+)\s*(?:\[[^\]]*\])?\s*(?:=.*)?$", st, re.S)
+                if m:
+                    class_static_names.add((chain[-1], m.group(1)))
     all_funcs = []        # (rel, qname, const, body)
     for rel in files:
         t, stmts, funcs = parsed[rel]
@@ -492,7 +499,12 @@ def census():
             if e["filescope"]:
                 if rel != e["file"]:
                     continue
-                rx = r"(?<![\w:.>])" + re.escape(name) + r"\b"
+                rx = r"(?<![\w:>])::" + re.escape(name) + r"\b"
+                # an unqualified mention inside a member function of a class that declares a static
+                # member of the same name denotes that member (class scope is searched first)
+                owner = q.rsplit("::", 1)[0].split("::")[-1] if "::" in q else ""
+                if not (owner and (owner, name) in class_static_names):
+                    rx = rx + r"|(?<![\w.>:])" + re.escape(name) + r"\b"
             else:
                 own = q.startswith(cls + "::") or ("::" + cls + "::") in q
                 rx = (r"(?<![\w.>])(?:\w+::)*" + re.escape(cls) + r"::" + re.escape(name) + r"\b")
@@ -519,7 +531,7 @@ def census():
     for fac, member, cls, hdr in OWNERS:
         for rel in files:
             for chain, kind, st in parsed[rel][1]:
-                if kind == "class" and chain and chain[-1] != cls and re.search(r"\b" + member + r"\s*$", st) and "(" not in st:
+                if kind == "class" and chain and chain[-1] != cls and re.search(r"\b" + member + r"\s*$", st) and "(" not in st and "&" not in st and "*" not in st:
                     raise AnchorError("gen_thr: owner anchor: %s also declared in class %s (%s)" % (member, chain[-1], rel))
     return {"files": files, "mutables": sorted(set(mutables)), "casts": sorted(casts.items()),
             "statics": out_statics, "lstatics": sorted(set(lstatics)), "owners": owners}
